@@ -414,6 +414,7 @@ fn run_gen(ctx: &RunCtx, max_len: usize) -> RunOut {
 struct PD {
     progress: Vec<f32>,
     fail_install: bool,
+    await_last_ack: bool,
 }
 impl Director for PD {
     fn http(&mut self, _w: &mut Inner, req: &WireReq) -> HttpAns {
@@ -427,6 +428,7 @@ impl Director for PD {
             progress: self.progress.clone(),
             results: vec![if self.fail_install { AppRes::Failed } else { AppRes::Installed }; offered],
             install_result: "r".into(),
+            await_last_ack: self.await_last_ack,
         }
     }
 }
@@ -435,10 +437,11 @@ fn run_sm(ctx: &RunCtx, _tier: Tier) -> RunOut {
     let n = choose("progress_len", 4);
     let progress: Vec<f32> = (0..n).map(|i| (i as f32 + 1.0) / 4.0).collect();
     let fail_install = choose("install_fails", 2) == 1;
+    let await_last_ack = n == 0 || choose("await_last_ack", 2) == 0;
     let mode = [Mode::Oneshot, Mode::Start][choose("mode", 2)];
     let mut s = Setup::new(mode);
     s.blocking = Blocking::all();
-    let mut e = Exec::new(s, Box::new(PD { progress: progress.clone(), fail_install }), Store::default());
+    let mut e = Exec::new(s, Box::new(PD { progress: progress.clone(), fail_install, await_last_ack }), Store::default());
     let opts = SchedOpts { por: true, spurious: true, drops: false };
     let stop = e.run_with(&opts, 160, |ex, en| {
         let g = ex.w.lock().unwrap();
@@ -539,8 +542,8 @@ fn parts(tier: Tier) -> Vec<PartDef> {
     let d = tier.pick(3, 5);
     v.push(PartDef::new(
         "install-progress",
-        Cfg::new("C13/install-progress").dev(d).free(&["progress_len", "install_fails", "mode"]),
-        json!({"progress_sequences": "0..3 values", "install": ["ok", "failed"], "modes": ["oneshot", "start"], "blocking": "timers, http, plan, install, each progress, reboot",
+        Cfg::new("C13/install-progress").dev(d).free(&["progress_len", "install_fails", "mode", "await_last_ack"]),
+        json!({"progress_sequences": "0..3 values", "install": ["ok", "failed"], "installer_waits_for_last_acknowledgement": [true, false], "modes": ["oneshot", "start"], "blocking": "timers, http, plan, install, each progress, reboot",
                "scheduling": format!("at most {d} non-default choices (other completion order, delayed or spurious consumer poll)")}),
         move |ctx| run_sm(ctx, tier),
     ));
